@@ -10,6 +10,7 @@ import (
 	"log"
 	"os"
 	"path/filepath"
+	"runtime"
 	"runtime/debug"
 	"sort"
 	"strings"
@@ -22,6 +23,7 @@ type Suite struct {
 	Gen      func(rng *Rng, tier string, stat func(string)) []string
 	Run      func(kv map[string]string) string
 	Parallel int // number of cases run concurrently (default 1)
+	Timeout  time.Duration // watchdog per case (default 90 s)
 }
 
 var suites = map[string]*Suite{}
@@ -68,6 +70,8 @@ func (b *panicBox) get() string {
 	defer b.mu.Unlock()
 	return b.msg
 }
+
+var dumpOnce sync.Once
 
 func safeRun(s *Suite, kv map[string]string) (res string) {
 	defer func() {
@@ -146,7 +150,25 @@ func main() {
 			defer wg.Done()
 			defer func() { <-sem }()
 			t0 := time.Now()
-			results[i] = safeRun(s, parseKV(lines[i])) + fmt.Sprintf(" dur=%d", time.Since(t0).Milliseconds())
+			// watchdog: a case that does not come back (a call of the library that blocks for ever) becomes the observation
+			// hang=watchdog instead of stalling the whole run; its goroutines are abandoned
+			ch := make(chan string, 1)
+			go func() { ch <- safeRun(s, parseKV(lines[i])) }()
+			limit := s.Timeout
+			if limit == 0 {
+				limit = 90 * time.Second
+			}
+			var r string
+			select {
+			case r = <-ch:
+			case <-time.After(limit):
+				r = "hang=watchdog:" + limit.String()
+				dumpOnce.Do(func() {
+					buf := make([]byte, 1<<20)
+					os.Stderr.Write(buf[:runtime.Stack(buf, true)])
+				})
+			}
+			results[i] = r + fmt.Sprintf(" dur=%d", time.Since(t0).Milliseconds())
 		}(i)
 	}
 	wg.Wait()
